@@ -240,4 +240,76 @@ class MinimizeValidationOrder(Unit):
         c.oblige("C19.minimize.validation_order_reaches_a_result_or_the_framework", z3.BoolVal(isinstance(res, Cut)), props=["C19"])
 
 
-UNITS = [StaticFrame(), MinimizePrologue(), MinimizeValidationOrder()]
+class Watched(dict):
+    """a user-owned dict: every mutating operation is recorded"""
+
+    def __init__(self, *a, **k):
+        dict.__init__(self, *a, **k)
+        self.writes = []
+
+    def _w(name):
+        def f(self, *a, **k):
+            before = dict(self)
+            r = getattr(dict, name)(self, *a, **k)
+            if dict(self) != before or name in ("__setitem__", "__delitem__", "update", "clear", "pop", "popitem"):
+                self.writes.append((name, a[:1]))
+            return r
+        return f
+    for _n in ("__setitem__", "__delitem__", "setdefault", "update", "pop", "popitem", "clear", "__ior__"):
+        locals()[_n] = _w(_n)
+    del _n, _w
+
+
+class GetConstraintsFrame(Unit):
+    """main._get_constraints on constraints given as dictionaries: the behaviour depends only on which of the keys type / fun / args are
+    present, on the type and on the container (a dict alone, a list, a tuple) - all combinations are enumerated on the real code.
+    The caller's dictionaries are never written (C11) and each becomes the NonlinearConstraint the documentation promises (C10)."""
+    name = "c11.get_constraints_dicts"
+    props = ("C11", "C10")
+    fmodel = "ORDER"
+    functions = [("cobyqa.main", "_get_constraints"), ("cobyqa.main", "_get_nonlinear_constraint")]
+
+    def run(self, c):
+        import numpy as np
+        from scipy.optimize import NonlinearConstraint
+        m = main_shadow("prologue")
+        calls = []
+
+        def ufun(x, *args):
+            calls.append((x, args))
+            return 7.0
+        k = 0
+        for kind in ("eq", "ineq", "other", None):
+            for has_fun in (True, False):
+                for args in ("absent", (), (1.5,), 2.5):
+                    for container in ("alone", "list", "tuple"):
+                        d = Watched()
+                        if kind is not None:
+                            d["type"] = kind
+                        if has_fun:
+                            d["fun"] = ufun
+                        if args != "absent":
+                            d["args"] = args
+                        d.writes.clear()
+                        snapshot = dict(d)
+                        arg = d if container == "alone" else [d] if container == "list" else (d,)
+                        valid = kind in ("eq", "ineq") and has_fun
+                        tag = f"[type={kind},fun={has_fun},args={args!r},{container}]"
+                        kind_, res = call_expecting(c, "C08.get_constraints" + tag, lambda: m._get_constraints(arg), (ValueError,))
+                        k += 1
+                        c.oblige("C11.get_constraints.user_dict_not_written" + tag, z3.BoolVal(not d.writes and dict(d) == snapshot), props=["C11"],
+                                 note=f"the caller's constraint dictionary was modified: {d.writes} {dict(d)}")
+                        c.oblige("C19.get_constraints.valueerror_iff_malformed" + tag, z3.BoolVal((kind_ == "exc") == (not valid)), props=["C10", "C11"])
+                        if kind_ != "exc" and valid:
+                            lin, nl = res
+                            ok = len(lin) == 0 and len(nl) == 1 and isinstance(nl[0], NonlinearConstraint)
+                            if ok:
+                                calls.clear()
+                                v = nl[0].fun("X")
+                                exp_args = () if args == "absent" else (args if isinstance(args, tuple) else (args,))
+                                ok = v == 7.0 and calls == [("X", exp_args)] and float(np.max(nl[0].lb)) == 0.0 and \
+                                    float(np.max(nl[0].ub)) == (0.0 if kind == "eq" else np.inf)
+                            c.oblige("C10.get_constraints.dict_becomes_the_documented_constraint" + tag, z3.BoolVal(bool(ok)), props=["C10"])
+
+
+UNITS = [StaticFrame(), MinimizePrologue(), MinimizeValidationOrder(), GetConstraintsFrame()]
